@@ -11,6 +11,8 @@ TYPES = {
     # same entries in another order: what the function returns (str(V), a header line, the first key) depends on it
     "date": ("datetime.date(2020, 1, 2)", "datetime.date(2020, 1, 3)"), "datetime": ("datetime.datetime(2020, 1, 2, 3, 4)", "datetime.datetime(2020, 1, 2, 3, 5)"),
     "timedelta": ("datetime.timedelta(days=1)", "datetime.timedelta(days=1, seconds=1)"),
+    # a C-implemented function bound to a module-level name (from math import floor as V): which function it is matters
+    "cfunc": ("math.floor", "math.ceil"),
     "dict_order": ("{'a': 1, 'b': 2}", "{'b': 2, 'a': 1}"), "set_like_list": ("[1, 2]", "[2, 1]"),
 }
 CONTEXTS = ["stmt", "if", "else", "for", "while", "with", "try", "finally", "listcomp", "genexp", "dictlit", "fstring", "ifexp",
